@@ -150,7 +150,9 @@ func ParseResolve(text string, sys resolve.System) (*resolve.Graph, error) {
 	}
 
 	// Create edges.
-	sources := make([]resolve.NodeID, len(g.Nodes)+1)
+	// Label and error rows nest without creating nodes, so the depth is
+	// bounded by the number of rows, not of nodes.
+	sources := make([]resolve.NodeID, len(s.rows)+1)
 	for i, r := range s.rows {
 		// Record the current index as the source at this indentation level.
 		sources[r.depth] = nodes[i]
@@ -253,6 +255,9 @@ func parseResolve(text string) (*resolveSchema, error) {
 		switch items := strings.Split(tl, " "); len(items) {
 		case 1: // This is a labeled requirement or an error.
 			requirement := items[0]
+			if requirement == "" {
+				return nil, fmt.Errorf("line %d: expected a requirement, got nothing", r.line)
+			}
 			if requirement[0] != '$' && r.err == "" {
 				return nil, fmt.Errorf("line %d: expected a label, got %q", r.line, requirement)
 			}
@@ -304,6 +309,10 @@ func parseResolve(text string) (*resolveSchema, error) {
 		// Not root?
 		if i == 0 && r.depth > 0 {
 			return nil, fmt.Errorf("line %d: row should be root (found %d depth for %s@%s)", r.line, r.depth, r.name, r.concrete)
+		}
+		// Root not a node? (An error or label row creates no node.)
+		if i == 0 && (r.name == "" || r.concrete == "") {
+			return nil, fmt.Errorf("line %d: the first row must define the root node", r.line)
 		}
 		// Several root?
 		if i > 0 && r.depth == 0 {
